@@ -14,11 +14,37 @@ import (
 	"net/url"
 	"strconv"
 	"strings"
+	"testing"
 
 	"github.com/imroc/req/v3/internal/verifh"
 )
 
 const c11LegacyClass = "hostident-legacy"
+
+// c11Lane wraps a session with the list of generator buckets the lane must reach: a lane that
+// did not reach one of them has not exercised what it claims and is reported as a broken check
+// (bin/check treats a failing lane whose output says "no tests to run" as infrastructure
+// failure, exit 2, never as a violation).
+type c11Lane struct {
+	*verifh.Session
+	t    *testing.T
+	seen map[string]int
+}
+
+func c11New(t *testing.T, lane, rule string) *c11Lane {
+	return &c11Lane{Session: verifh.New(t, "C11", lane, rule), t: t, seen: map[string]int{}}
+}
+
+func (l *c11Lane) Count(k string) { l.seen[k]++; l.Session.Count(k) }
+
+func (l *c11Lane) FinishRequire(buckets ...string) {
+	l.Session.Finish()
+	for _, b := range buckets {
+		if l.seen[b] == 0 {
+			l.t.Fatalf("verif: required generator bucket %q not reached - no tests to run for it", b)
+		}
+	}
+}
 
 // ---------------------------------------------------------------- structured authorities
 
